@@ -80,4 +80,32 @@ CHECKS = {
              "domain is representative.",
         note="trusted: the independent matcher in pvmc/props/c19.py (8 lines)",
     ),
+    "C05": dict(
+        engine="E1 replay-BFS", level="model_checking", design_ref="5/C05",
+        technique="explicit-state BFS over event histories replayed on the real discovery stack under a virtual loop; reference liveness table + alternation monitor",
+        text="Histories of offers (TTL 1/2/inf), stop-offers, reboot evidence, connection loss and watch/unwatch calls from "
+             "two sources for two services are explored breadth-first; each transition rebuilds real objects and replays "
+             "the history; message-vs-deadline ties are explored in both orders (pre/post), plus bounded 'one iteration "
+             "only' and 'two calls in one iteration' deviations. Two sub-alphabets are explored to closure, the full "
+             "menu to a stated depth. Every state is judged against a reference liveness table.",
+        note=_TB + "; state key = canonical snapshot of the whole object graph incl. tasks and timers, validated by "
+             "re-expanding sampled merged states",
+    ),
+    "C06": dict(
+        engine="E1 replay-BFS", level="model_checking", design_ref="5/C06",
+        technique="explicit-state BFS over event histories replayed on the real announcer/instance under a virtual loop; reference subscription table + alternation monitor + Ack bookkeeping",
+        text="Histories of Subscribe/StopSubscribe (TTL 1/2/inf), reboot evidence, listener accept/reject, announcer and "
+             "service stop/start and connection loss from two subscribers for three subscriptions; ties with the TTL "
+             "deadline in both orders; bounded deviations; two sub-alphabets to closure, the full menu to a stated depth.",
+        note=_TB,
+    ),
+    "C09": dict(
+        engine="E1 replay-BFS", level="model_checking", design_ref="5/C09",
+        technique="explicit-state BFS over add/refresh/stop/remove-all histories and clock moves on the real TimedStore (through its two public seams); exact expected (time, kind) notification list",
+        text="All histories of add / refresh / stop / remove-all over 1-2 keys x 1-2 addresses x TTL {1,2,3,0xFFFFFE,inf} "
+             "with clock moves to mid-points, deadline-2r, deadline-r/2, deadline (action before / after the timer), "
+             "deadline+eps and a 0x1000000 s jump; small alphabets to closure, the larger one to a stated depth; the "
+             "observed notification list must equal the reference list exactly (time and kind).",
+        note=_TB + "; dyadic durations make clock arithmetic exact",
+    ),
 }
